@@ -53,8 +53,31 @@ def adjustAxis (axis : List Char) (x y : α) : Except Err (α × α) :=
     pure (x, y)
   | _ => .error .axis
 
+/-- one rune of `strings.EqualFold(s, t)` for an ASCII rune `t`: equal, or the other ASCII case, or
+the non-ASCII members of `t`'s `unicode.SimpleFold` orbit — the Kelvin sign U+212A for `K`/`k`,
+the long s U+017F for `S`/`s` (no other ASCII letter has a third member). -/
+def foldEqAscii (c t : Char) : Bool :=
+  c == t || (t.isUpper && c == t.toLower) || (t.isLower && c == t.toUpper)
+    || ((t == 'K' || t == 'k') && c == Char.ofNat 0x212A)
+    || ((t == 'S' || t == 's') && c == Char.ofNat 0x17F)
+
+def equalFoldAscii : List Char → List Char → Bool
+  | [], [] => true
+  | c :: cs, t :: ts => foldEqAscii c t && equalFoldAscii cs ts
+  | _, _ => false
+
+/-- Go `strings.EqualFold(s, t)` for an ASCII `t` (rune by rune under simple case folding; a
+different number of runes is `false`) -/
+def goEqualFold (s t : String) : Bool := equalFoldAscii s.toList t.toList
+
+/-- `checkNotWGS` (transform.go, after fix b165df1: the destination's datum code is compared with
+`"WGS84"` case-insensitively, so the `wgs84` that the WKT reader writes counts as WGS84) -/
 def checkNotWGS (s d : SR α) : Bool :=
-  (s.datum.dtype = pjd3Param || s.datum.dtype = pjd7Param) && !d.codeWGS84
+  (s.datum.dtype = pjd3Param || s.datum.dtype = pjd7Param) && !(goEqualFold d.datumCode "WGS84")
+
+/-- the pre-fix decision (`dest.DatumCode != "WGS84"`, exact): kept for the negation theorem -/
+def checkNotWGSUnfixed (s d : SR α) : Bool :=
+  (s.datum.dtype = pjd3Param || s.datum.dtype = pjd7Param) && !(d.datumCode == "WGS84")
 
 def enu : List Char := ['e', 'n', 'u']
 
@@ -102,7 +125,7 @@ def wgs84SR : SR α :=
   { name := .longlat, lat0 := nan, lat1 := nan, lat2 := nan, latTS := nan, long0 := nan, x0 := nan,
     y0 := nan, k0 := 1.0, k := nan, a := a, b := b, rf := rf, es := es, e := sqrt es, ep2 := ep2,
     zone := nan, toMeter := 1.0, fromGreenwich := nan, sphere := false, ra := false,
-    utmSouth := false, czech := false, axis := enu, codeWGS84 := true,
+    utmSouth := false, czech := false, axis := enu, datumCode := "WGS84",
     datum := { dtype := pjdWGS84, a := a, b := b, es := es, ep2 := ep2, np := 0, p0 := 0.0, p1 := 0.0,
                p2 := 0.0, p3 := 0.0, p4 := 0.0, p5 := 0.0, p6 := 0.0 } }
 
